@@ -77,10 +77,35 @@ macro_rules! proof_entropy_seed {
 }
 
 // C05
-proof_plain!(c05_u8_d4, crate::h_c05::c05_u8_d4, 8);
-proof_plain!(c05_f64_d3, crate::h_c05::c05_f64_d3, 8);
-proof_plain!(c05_u8_d6, crate::h_c05::c05_u8_d6, 8);
-proof_plain!(c05_i32_d4, crate::h_c05::c05_i32_d4, 8);
+// harnesses behind the crate feature `gibbs` (see Cargo.toml)
+macro_rules! proof_plain_gibbs {
+    ($name:ident, $body:path, $unwind:expr) => {
+        #[cfg(feature = "gibbs")]
+        #[kani::proof]
+        #[kani::unwind($unwind)]
+        fn $name() {
+            let mut s = Src::new();
+            $body(&mut s);
+        }
+    };
+}
+macro_rules! proof_entropy_seed_gibbs {
+    ($name:ident, $body:path, $unwind:expr) => {
+        #[cfg(feature = "gibbs")]
+        #[kani::proof]
+        #[kani::unwind($unwind)]
+        #[kani::stub(getrandom::fill, getrandom_fill_stub)]
+        #[kani::stub(<rand::rngs::SmallRng as rand::SeedableRng>::seed_from_u64, seed_from_u64_stub)]
+        fn $name() {
+            let mut s = Src::new();
+            $body(&mut s);
+        }
+    };
+}
+proof_plain_gibbs!(c05_u8_d4, crate::h_c05::c05_u8_d4, 8);
+proof_plain_gibbs!(c05_f64_d3, crate::h_c05::c05_f64_d3, 8);
+proof_plain_gibbs!(c05_u8_d6, crate::h_c05::c05_u8_d6, 8);
+proof_plain_gibbs!(c05_i32_d4, crate::h_c05::c05_i32_d4, 8);
 
 // C07 / C08 seed plumbing
 proof_entropy_seed!(c07_mh_seeded_iso_n2, crate::h_c07::c07_mh_seeded_iso_n2, 34);
@@ -90,8 +115,8 @@ proof_entropy_seed!(c08_mh_seeded_user_n2, crate::h_c07::c08_mh_seeded_user_n2, 
 proof_entropy_seed!(c08_mh_seeded_user_n3, crate::h_c07::c08_mh_seeded_user_n3, 34);
 proof_entropy_seed!(c08_mh_unseeded_iso_n2, crate::h_c07::c08_mh_unseeded_iso_n2, 34);
 proof_entropy_seed!(c08_mh_unseeded_iso_n3, crate::h_c07::c08_mh_unseeded_iso_n3, 34);
-proof_entropy_seed!(c07_gibbs_seeded_n3, crate::h_c07::c07_gibbs_seeded_n3, 34);
-proof_entropy_seed!(c07_gibbs_seeded_n3_top, crate::h_c07::c07_gibbs_seeded_n3_top, 34);
+proof_entropy_seed_gibbs!(c07_gibbs_seeded_n3, crate::h_gibbs::c07_gibbs_seeded_n3, 34);
+proof_entropy_seed_gibbs!(c07_gibbs_seeded_n3_top, crate::h_gibbs::c07_gibbs_seeded_n3_top, 34);
 
 macro_rules! proof_init {
     ($name:ident, $body:path, $unwind:expr) => {
